@@ -192,7 +192,18 @@ func runProperty(e *Engine, prop, tier, propsFile, evidence, replays, knownFile 
 		if strings.HasPrefix(key, "arith:") {
 			res = e.verifyArith(key[6:])
 		} else {
-			res = e.verifyFuncFor(key, budget, prop)
+			fkey, vprop := key, prop
+			if i := strings.Index(key, "@"); i > 0 {
+				fkey, vprop = key[:i], prop+key[i:]
+			}
+			res = e.verifyFuncFor(fkey, budget, vprop)
+			res.Variant = vprop
+			if fkey != key {
+				res.Key = key
+				for _, o := range res.Obls {
+					o.ID = strings.Replace(o.ID, fkey+"#", key+"#", 1)
+				}
+			}
 		}
 		for _, l := range res.Lemmas {
 			if !lemmaSeen[l] {
@@ -215,6 +226,9 @@ func runProperty(e *Engine, prop, tier, propsFile, evidence, replays, knownFile 
 				continue
 			}
 			obls := filterObls(res.Obls, prop)
+			if res.Variant != "" && res.Variant != prop {
+				obls = filterVariant(res.Obls, res.Variant)
+			}
 			all = append(all, obls...)
 			wg.Add(1)
 			go func(res *FuncResult, obls []*Obligation) {
@@ -272,8 +286,8 @@ func runProperty(e *Engine, prop, tier, propsFile, evidence, replays, knownFile 
 		if ct := e.cf.Funcs[r.Key]; ct != nil {
 			expected = ct.UnreachableReturns
 		}
-		if rets-reachable != expected {
-			vacuity = append(vacuity, &Obligation{ID: r.Key + "#vacuity#unreachable-returns", Func: r.Key, Desc: fmt.Sprintf("%d returns of %s are unreachable under its contract, expected %d (contradictory premises or dead code)", rets-reachable, r.Key, expected)})
+		if rets-reachable > expected && (r.Variant == "" || r.Variant == prop) {
+			vacuity = append(vacuity, &Obligation{ID: r.Key + "#vacuity#unreachable-returns", Func: r.Key, Desc: fmt.Sprintf("%d returns of %s are unreachable under its contract, at most %d expected (contradictory premises or dead code)", rets-reachable, r.Key, expected)})
 		}
 	}
 	exit := 0
